@@ -1,11 +1,11 @@
 package obl
 
 import (
-	"os"
 	"fmt"
 	"go/constant"
 	"go/token"
 	"go/types"
+	"os"
 	"sort"
 	"strings"
 
@@ -59,7 +59,7 @@ type Config struct {
 
 // Analyzer runs the abstract interpretation.
 type Analyzer struct {
-	redef map[*Term]bool // merge terms (re)defined by the join in progress
+	redef       map[*Term]bool // merge terms (re)defined by the join in progress
 	cfg         Config
 	tt          *termTable
 	verdicts    map[string]*verdict
